@@ -139,4 +139,39 @@ theorem largest_is_max_end_explicit (ops : List Op) :
 
 example : (run exOps).buf.largest = 7 ∧ maxEnd exOps = 7 ∧ (run exOps).charged = 7 := by decide
 
+/-! ### 5. the Rust `loop` itself (branch-by-branch transliteration `recvLoop`) -/
+
+/-- Refinement: on a sorted, disjoint, non-empty segment list the transliterated Rust loop returns exactly
+what the single pass `ins` computes — for every start offset, fragment and `largest` — provided it is given
+at least `2·|segs| + 2` iterations.  In particular no panic site (`split_to`, `segments[i]`, `u64` underflow)
+is reachable. -/
+theorem recvLoop_eq_ins (lo hi : Nat) (segs : List Seg) (start : Nat) (data : Bytes) (lg fuel : Nat)
+    (hw : Wf lo hi segs) (hf : loopFuel segs ≤ fuel) :
+    recvLoop fuel segs start data lg = .done (ins segs start data lg).1 (ins segs start data lg).2 := by
+  have h := recvLoop_eq_ins_aux segs lo [] start data lg fuel (fun _ hm => by simp at hm) hw hf
+  simpa only [List.nil_append] using h
+
+/-- Termination: under the invariant, `recv` for ANY offset and data leaves the loop within
+`2·|segments| + 2` iterations (never out of fuel, never at a panic site), with the result of the single pass. -/
+theorem recv_loop_terminates (src : Bytes) (s : State) (h : Inv src s) (off : Nat) (data : Bytes) :
+    recvViaLoop s off data = .ok (recv s off data).1 (recv s off data).2 :=
+  recvViaLoop_eq_recv ((inv_iff' src s).mp h).1 off data
+
+/-- The same in every reachable state: after EVERY history (no premise on the fragments) the next `recv`
+through the loop equals the next `recv` through the single pass. -/
+theorem recv_loop_eq_recv_all_histories (ops : List Op) (off : Nat) (data : Bytes) :
+    recvViaLoop (run ops).buf off data = .ok (recv (run ops).buf off data).1 (recv (run ops).buf off data).2 :=
+  recvViaLoop_eq_recv (run_struct ops).struct off data
+
+-- non-vacuity: a state with three stored segments satisfies the hypotheses; the fragment overlaps all of them
+-- and the loop needs several iterations (4 units of fuel are not enough, the proved bound 8 is)
+example : Inv exSrc (run (exOps.take 4)).buf ∧
+    Wf (run (exOps.take 4)).buf.nread (run (exOps.take 4)).buf.largest (run (exOps.take 4)).buf.segs ∧
+    (run (exOps.take 4)).buf.segs.length = 3 ∧
+    recvLoop 4 ((run (exOps.take 2)).buf.segs ++ [⟨6, [7]⟩]) 0 exSrc 7 = .fuel ∧
+    recvLoop 8 ((run (exOps.take 2)).buf.segs ++ [⟨6, [7]⟩]) 0 exSrc 7
+      = .done [⟨0, [1, 2]⟩, ⟨2, [3, 4, 5]⟩, ⟨5, [6]⟩, ⟨6, [7]⟩, ⟨7, [8]⟩] 8 := by
+  refine ⟨(run_inv exSrc _ ?_).inv, (run_struct _).struct.1, by decide, by decide, by decide⟩
+  simp [exOps, Op.SliceOf, exSrc]
+
 end GmQuic.RecvBuf
